@@ -115,7 +115,12 @@ CHECKS = {
     "C13": _c("Coq proof (check-limit step lemmas for every limit L + counting induction) + correspondence + schedule-space oracle",
               "Proof (props/C13.v): EOF before all data does not finish the transaction (check timer starts, counter 0); expiry with "
               "complete data completes; expiry k<L only counts; expiry L declares Check Limit Reached exactly then; after k expiries the "
-              "counter is k (any L); sender with closure declares Check Limit Reached when its timer expires without a Finished PDU.",
+              "counter is k (any L); sender with closure declares Check Limit Reached when its timer expires without a Finished PDU. Closed form "
+              "(C13b) and HISTORY LEVEL (props/C13c.v) through state_machine from a fresh handler: Metadata, any early slices, EOF, then any "
+              "schedule of late slices and polls with arbitrary clock advances - waits while data is missing (counter = number of expiries), "
+              "completes successfully with the identical file at the first expiry found with the file complete, declares Check Limit Reached at "
+              "the L-th expiry otherwise, for every configured handler; an IGNOREd limit fault is not declared again before the next expiry "
+              "(fixed finding F34). The no-intermediate-CRC-collision hypothesis is shown necessary by a constructed collision.",
               "6/C13"),
     "C14": _c("Coq proof (dispatch lemmas for every condition/handler code on both handlers; table read from mib.py each run) + correspondence + callback oracle",
               "Proof (props/C14.v): declare_fault calls exactly the configured callback once with (id, condition, progress) and ignores / "
@@ -125,7 +130,7 @@ CHECKS = {
               "is the abandon callback of a fault during a cancel exchange, characterised exactly); an abandon callback is the newest event "
               "of its call, at most one, handler idle and fresh afterwards, nothing queued earlier is dropped; the sender delivers at most "
               "one fault callback per call; the receiver's Transaction-Finished after a cancel callback reports that condition. "
-              "Fixed findings: F15, F22, F25-F27 (see DESIGN.md 14).",
+              "Fixed findings: F15, F22, F25-F27, F34 (see DESIGN.md 14).",
               "6/C14"),
     "C15": _c("Coq proof (gating invariant over both whole state machines by compositional reasoning + parameter lemmas) + correspondence + indication oracle",
               "Proof (props/C15.v): every event any call adds is gated by its switch (all inputs, all states); Metadata-Recv / "
